@@ -46,6 +46,13 @@ CLAIMED["C02"] = {
   "technique": "machine-checked proof in Lean 4 (induction over operator trees, loop invariant for helmert) + model/implementation correspondence check + bitwise set/singleton/permutation/chunk oracle",
 }
 
+CLAIMED["C16"] = {
+  "text": "Lean 4 theorems (Geodesy/Props/C16.lean) over the model of split_into_parameters and ParsedParameters::new: for every step whose elements are a name followed by key=value pairs and flags, the parameter map is {_name -> name} with the bindings inserted in order, flags bound to 'true', the last of repeated keys winning (collectParams_spec, get_insert_same/other, for all element lists); leading modifiers are rotated behind the name and the rotation always ends (rotate_prefix, rotate_length); typed extraction rules, one per kind: flag / natural / integer / real (decimal or sexagesimal) / series / texts parse to the value written or are rejected with BadParam, required parameters are demanded, defaults used (flag_rule ... texts_rule); sexagesimal_value and decimal_value give the real number a spelling stands for. Tied to /repo by a correspondence run: normalize / split_into_steps / split_into_parameters on canonical and noisy layouts (Unicode white space, CR/LF/CRLF, continuation colons, comments, subscript digits, </> sugar, empty steps), instantiated trees, every value spelling per type incl. thousands of random decimal literals compared bit for bit (the model implements correct rounding), and by the layout and value oracles on the implementation.",
+  "design_ref": "DESIGN.md section 7, C16; 8a",
+  "note": "Partial: layout invariance / idempotence of the 25-stage replacement chain of normalize is decided by correspondence + oracle over generated layouts, not by a theorem; f64::from_str is assumed correctly rounded (documented), Unicode to_lowercase modelled on ASCII.",
+  "technique": "machine-checked proof in Lean 4 (list/map lemmas over the modelled tokenizer and typed extraction) + model/implementation correspondence check + layout oracle",
+}
+
 ALL = ["C%02d" % i for i in range(1, 21)]
 
 def main():
